@@ -253,6 +253,32 @@ def resolve_closure(facts, blocks, op, depth=8, outer=None, new_local=None):
     return None, None
 
 
+def closure_mono(blocks, op, depth=8):
+    """the type-argument substitution remembered on the aggregate that built this closure value (closures of a
+    generic function that was inlined with known type arguments), or None"""
+    for _ in range(depth):
+        if "k" in op:
+            return None
+        pl = operand_place(op)
+        if pl is None or any(isinstance(e, dict) for e in pl["p"]):
+            return None
+        ds = defs_of(blocks, pl["l"])
+        if len(ds) != 1 or ds[0][0] != "stmt":
+            return None
+        rv = ds[0][2]["rv"]
+        if rv["k"] == "agg" and rv.get("agg") == "closure":
+            return rv.get("mono")
+        if rv["k"] == "use":
+            op = rv["op"]
+        elif rv["k"] == "ref":
+            op = {"c": rv["place"]}
+        elif rv["k"] == "cast" and "op" in rv:
+            op = rv["op"]
+        else:
+            return None
+    return None
+
+
 class _Unsupported(Exception):
     pass
 
@@ -336,9 +362,14 @@ class Sugar:
                     return {"l": cp["l"], "p": list(cp["p"]) + list(p[i + 1:])}
             return place
 
+        mono = closure_mono(self.blocks, closure_op)
+        if mono:
+            from .inline import _mono_block
         for ci, cblk in enumerate(cb.blocks):
             nb = _shift_block(cblk, off_l, off_b)
             map_block(nb, fp)
+            if mono:
+                _mono_block(self.facts, nb, mono)
             tt = nb["term"]
             if tt and tt["k"] == "return" and not nb["cleanup"]:
                 nb["stmts"].append({"k": "assign", "lhs": dest_place, "rv": {"k": "use", "op": M(off_l)}, "span": B.span, "inl_ret": cb.id})
